@@ -2,7 +2,7 @@
    the signed flag, the signature clock and window, as regenerated from /repo on every run. *)
 From Coq Require Import ZArith NArith List String Ascii Lia Bool Btauto.
 From GM Require Import SrcPrelude.
-From GM Require Import SrcFrame SrcStreamwriter Bytes Frame Reader Writer.
+From GM Require Import SrcFrame SrcStreamwriter Bytes Result Frame Reader Writer.
 Import ListNotations.
 Local Open Scope N_scope.
 
@@ -52,6 +52,152 @@ Proof. unfold src_frame_uint48Encode. cbn [set_nth le_enc app]. rewrite !wrap8_u
 
 Theorem src_is_signed f : src_frame_V2Frame_IsSigned (f_inc f) = is_signed f.
 Proof. reflexivity. Qed.
+
+
+(* ---------------- marshalTo of both frame versions ----------------
+   The translations store into a buffer; the models return the bytes.  For every frame and payload,
+   in a buffer long enough, the translated function leaves exactly the model's bytes at the front of
+   the buffer, the rest of the buffer untouched, and returns their number; a v1 frame with an id above
+   255 is refused without touching the buffer. *)
+Local Open Scope list_scope.
+
+Lemma put_le_spec : forall k l v, (k <= length l)%nat -> put_le l k v = (le_enc k v ++ skipn k l)%list.
+Proof.
+  induction k as [|k IH]; intros l v H; [destruct l; reflexivity|].
+  destruct l as [|x t]; [cbn in H; lia|]. cbn [put_le le_enc skipn app].
+  rewrite IH by (cbn in H; lia). rewrite N.shiftr_div_pow2. reflexivity.
+Qed.
+
+Lemma overwrite_fits : forall src dst, (length src <= length dst)%nat ->
+  overwrite dst src = (src ++ skipn (length src) dst)%list.
+Proof.
+  induction src as [|s r IH]; intros dst H; [destruct dst; reflexivity|].
+  destruct dst as [|d t]; [cbn in H; lia|]. cbn. f_equal. apply IH. cbn in H. lia.
+Qed.
+
+Lemma on_suffix_app a b g : on_suffix (a ++ b) (length a) g = (a ++ g b)%list.
+Proof. unfold on_suffix. rewrite firstn_app, firstn_all, Nat.sub_diag, skipn_app, skipn_all, Nat.sub_diag. cbn. rewrite app_nil_r. reflexivity. Qed.
+
+Lemma set_nth_app : forall a x t v, SrcPrelude.set_nth (a ++ x :: t) (length a) v = (a ++ v :: t)%list.
+Proof. induction a as [|y a IH]; intros; cbn; [reflexivity|]. f_equal. apply IH. Qed.
+
+Lemma copy_at_app a b src : (length src <= length b)%nat ->
+  copy_at (a ++ b) (length a) src = ((a ++ src ++ skipn (length src) b)%list, nlen src).
+Proof.
+  intros H. unfold copy_at. rewrite on_suffix_app, overwrite_fits by exact H. f_equal.
+  unfold nlen. f_equal. rewrite app_length. lia.
+Qed.
+
+Lemma skipn_add {A} : forall a b (l : list A), skipn a (skipn b l) = skipn (b + a) l.
+Proof. intros a b. induction b as [|b IH]; intros l; [reflexivity|]. destruct l; [destruct a; reflexivity|]. cbn. apply IH. Qed.
+
+Theorem src_v1_marshal : forall f p buf, f_v2 f = false -> (8 + length p <= length buf)%nat ->
+  src_frame_V1Frame_marshalTo (f_seq f) (f_sys f) (f_comp f) (f_ck f) (msg_id (f_msg f)) buf p =
+  match marshal f p with
+  | Ok bs => (nlen bs, false, (bs ++ skipn (length bs) buf)%list)
+  | _ => (0, true, buf)
+  end.
+Proof.
+  intros f p buf V2 L. unfold src_frame_V1Frame_marshalTo, marshal. rewrite V2.
+  destruct (255 <? msg_id (f_msg f)) eqn:Big; [reflexivity|].
+  destruct buf as [|h0 [|h1 [|h2 [|h3 [|h4 [|h5 rest]]]]]]; cbn [length] in L; try lia.
+  cbn [SrcPrelude.set_nth].
+  set (hdr := [254; wrap 8 (N.of_nat (length p)); f_seq f; f_sys f; f_comp f; wrap 8 (msg_id (f_msg f))]).
+  change (254 :: wrap 8 (N.of_nat (length p)) :: f_seq f :: f_sys f :: f_comp f :: wrap 8 (msg_id (f_msg f)) :: rest)
+    with (hdr ++ rest).
+  assert (E : (if 0 <? N.of_nat (length p)
+               then let '(buf, copied_) := copy_at (hdr ++ rest) (N.to_nat 6) p in (6 + copied_, buf)
+               else (6, hdr ++ rest)) = (6 + nlen p, hdr ++ p ++ skipn (length p) rest)).
+  { change (N.to_nat 6) with (length hdr). rewrite copy_at_app by lia.
+    destruct p as [|b p']; [reflexivity|].
+    replace (0 <? N.of_nat (length (b :: p'))) with true by (symmetry; apply N.ltb_lt; cbn [length]; lia).
+    reflexivity. }
+  rewrite E. clear E.
+  replace (N.to_nat (6 + nlen p)) with (length (hdr ++ p)) by (rewrite app_length; unfold nlen; cbn [length hdr]; lia).
+  rewrite app_assoc. rewrite on_suffix_app. rewrite put_le_spec by (rewrite skipn_length; lia).
+  rewrite skipn_add.
+  subst hdr. rewrite !wrap8_u8. fold (nlen p).
+  f_equal; [f_equal|].
+  - unfold nlen. rewrite !app_length. cbn [length le_enc]. lia.
+  - rewrite <- !app_assoc. cbn [app length skipn]. rewrite app_length. cbn [le_enc length].
+    reflexivity.
+Qed.
+
+Lemma uint24_gen l v : (3 <= length l)%nat -> src_frame_uint24Encode l v = le_enc 3 v ++ skipn 3 l.
+Proof.
+  intros H. destruct l as [|x0 [|x1 [|x2 r]]]; cbn [length] in H; try lia. apply src_uint24_encode.
+Qed.
+Lemma uint48_gen l v : (6 <= length l)%nat -> src_frame_uint48Encode l v = le_enc 6 v ++ skipn 6 l.
+Proof.
+  intros H. destruct l as [|x0 [|x1 [|x2 [|x3 [|x4 [|x5 r]]]]]]; cbn [length] in H; try lia. apply src_uint48_encode.
+Qed.
+
+Theorem src_v2_marshal : forall f p buf s, f_v2 f = true -> (25 + length p <= length buf)%nat ->
+  (is_signed f = true -> f_sig f = Some s /\ length s = 6%nat) ->
+  src_frame_V2Frame_marshalTo (f_inc f) (f_cmp f) (f_seq f) (f_sys f) (f_comp f) (f_ck f) (f_link f) (f_ts f) s
+    (msg_id (f_msg f)) buf p =
+  match marshal f p with
+  | Ok bs => (nlen bs, false, bs ++ skipn (length bs) buf)
+  | _ => (0, true, buf)
+  end.
+Proof.
+  intros f p buf s V2 L SG. unfold src_frame_V2Frame_marshalTo, marshal. rewrite V2.
+  destruct buf as [|h0 [|h1 [|h2 [|h3 [|h4 [|h5 [|h6 rest]]]]]]]; cbn [length] in L; try lia.
+  cbn [SrcPrelude.set_nth].
+  set (hdr7 := [253; wrap 8 (N.of_nat (length p)); f_inc f; f_cmp f; f_seq f; f_sys f; f_comp f]).
+  change (253 :: wrap 8 (N.of_nat (length p)) :: f_inc f :: f_cmp f :: f_seq f :: f_sys f :: f_comp f :: rest)
+    with (hdr7 ++ rest).
+  change 7%nat with (length hdr7). rewrite on_suffix_app. rewrite uint24_gen by lia.
+  set (hdr := hdr7 ++ le_enc 3 (msg_id (f_msg f))).
+  rewrite (app_assoc hdr7). fold hdr.
+  assert (LH : length hdr = 10%nat) by reflexivity.
+  assert (E : (if 0 <? N.of_nat (length p)
+               then let '(buf, copied_) := copy_at (hdr ++ skipn 3 rest) (N.to_nat 10) p in (10 + copied_, buf)
+               else (10, hdr ++ skipn 3 rest)) = (10 + nlen p, hdr ++ p ++ skipn (length p) (skipn 3 rest))).
+  { change (N.to_nat 10) with (length hdr). rewrite copy_at_app by (rewrite skipn_length; lia).
+    destruct p as [|b p']; [reflexivity|].
+    replace (0 <? N.of_nat (length (b :: p'))) with true by (symmetry; apply N.ltb_lt; cbn [length]; lia).
+    reflexivity. }
+  rewrite E. clear E.
+  replace (N.to_nat (10 + nlen p)) with (length (hdr ++ p)) by (rewrite app_length, LH; unfold nlen; lia).
+  rewrite app_assoc. rewrite on_suffix_app. rewrite put_le_spec by (rewrite !skipn_length; lia).
+  rewrite !skipn_add.
+  change (src_frame_V2Frame_IsSigned (f_inc f)) with (is_signed f).
+  subst hdr hdr7. rewrite !wrap8_u8. fold (nlen p).
+  set (A := (([253; u8 (nlen p); f_inc f; f_cmp f; f_seq f; f_sys f; f_comp f] ++ le_enc 3 (msg_id (f_msg f))) ++ p) ++
+            le_enc 2 (f_ck f)).
+  assert (LA : length A = (12 + length p)%nat).
+  { unfold A. rewrite !app_length. cbn [length le_enc]. lia. }
+  assert (EA : [253; u8 (nlen p); f_inc f; f_cmp f; f_seq f; f_sys f; f_comp f] ++
+               le_enc 3 (msg_id (f_msg f)) ++ p ++ le_enc 2 (f_ck f) = A).
+  { unfold A. rewrite <- !app_assoc. reflexivity. }
+  rewrite EA. rewrite (app_assoc _ (le_enc 2 (f_ck f))). fold A.
+  assert (SK : forall m, skipn (7 + m) (h0 :: h1 :: h2 :: h3 :: h4 :: h5 :: h6 :: rest) = skipn m rest) by reflexivity.
+  destruct (is_signed f) eqn:Sg.
+  - destruct (SG eq_refl) as [Es Ls]. rewrite Es.
+    remember (skipn (3 + (length p + 2)) rest) as tail eqn:Et.
+    assert (LT : (13 <= length tail)%nat) by (rewrite Et, skipn_length; lia).
+    destruct tail as [|x t]; [cbn in LT; lia|]. cbn [length] in LT.
+    replace (N.to_nat (10 + nlen p + 2)) with (length A) by (rewrite LA; unfold nlen; lia).
+    rewrite set_nth_app.
+    replace (N.to_nat (10 + nlen p + 2 + 1)) with (length (A ++ [f_link f])) by (rewrite app_length, LA; unfold nlen; cbn [length]; lia).
+    change (A ++ f_link f :: t) with (A ++ [f_link f] ++ t). rewrite (app_assoc A). rewrite on_suffix_app.
+    rewrite uint48_gen by lia.
+    replace (N.to_nat (10 + nlen p + 2 + 1 + 6)) with (length ((A ++ [f_link f]) ++ le_enc 6 (f_ts f)))
+      by (rewrite !app_length, LA; unfold nlen; cbn [length le_enc]; lia).
+    rewrite (app_assoc (A ++ [f_link f])). rewrite copy_at_app by (rewrite skipn_length; lia).
+    f_equal; [f_equal|].
+    + unfold nlen. rewrite !app_length, LA, Ls. cbn [length le_enc]. lia.
+    + rewrite <- !app_assoc. do 4 f_equal.
+      replace (length (A ++ [f_link f] ++ le_enc 6 (f_ts f) ++ s)) with (7 + (3 + (length p + 2) + 13))%nat
+        by (rewrite !app_length, LA, Ls; cbn [length le_enc]; lia).
+      rewrite SK. rewrite Ls. rewrite skipn_add.
+      rewrite <- (skipn_add 13 (3 + (length p + 2)) rest). rewrite <- Et. reflexivity.
+  - f_equal; [f_equal|].
+    + unfold nlen. rewrite LA. lia.
+    + f_equal. replace (length A) with (7 + (3 + (length p + 2)))%nat by (rewrite LA; lia).
+      rewrite SK. reflexivity.
+Qed.
 
 
 Local Open Scope Z_scope.
